@@ -161,6 +161,10 @@ func workerMain(t *testing.T) {
 			break
 		}
 		if detOn {
+			if os.Getenv("VERIF_DET") == "2" {
+				b, _ := json.Marshal(c)
+				fmt.Println("DETCASE", string(b))
+			}
 			fmt.Printf("DET %s %d %016x\n", prop, idx, detTake())
 		}
 		emit(wline{Type: "end", Idx: idx, Ms: time.Since(t0).Milliseconds()})
